@@ -15,8 +15,92 @@ pub fn shim_u32_to_le_bytes(x: u32) -> (r: [u8; 4])
     x.to_le_bytes()
 }
 
+// ------------------------------------------------------------------------------------------------
+// RFC 9106 section 3.6: permutation P, built on the BlaMka-modified BLAKE2b round function GB
+// ------------------------------------------------------------------------------------------------
+/// a + b + 2 * trunc(a) * trunc(b) mod 2^64  (trunc = low 32 bits)
 pub open spec fn fblamka_spec(a: u64, b: u64) -> u64 {
     ((a as nat + b as nat + 2 * ((a as nat % 0x1_0000_0000) * (b as nat % 0x1_0000_0000))) % 0x1_0000_0000_0000_0000) as u64
+}
+
+/// GB(a, b, c, d) on the words at positions a, b, c, d of s (rotations 32, 24, 16, 63 to the right)
+pub open spec fn gb_spec(s: Seq<u64>, a: int, b: int, c: int, d: int) -> Seq<u64> {
+    let s = s.update(a, fblamka_spec(s[a], s[b]));
+    let s = s.update(d, spec_rotr64(s[d] ^ s[a], 32));
+    let s = s.update(c, fblamka_spec(s[c], s[d]));
+    let s = s.update(b, spec_rotr64(s[b] ^ s[c], 24));
+    let s = s.update(a, fblamka_spec(s[a], s[b]));
+    let s = s.update(d, spec_rotr64(s[d] ^ s[a], 16));
+    let s = s.update(c, fblamka_spec(s[c], s[d]));
+    let s = s.update(b, spec_rotr64(s[b] ^ s[c], 63));
+    s
+}
+
+/// P applied in place to the 16 words of s whose positions are ix[0..16] (v_0 .. v_15 of the 4x4 matrix):
+/// four column GBs then four diagonal GBs
+pub open spec fn p_at(s: Seq<u64>, ix: Seq<int>) -> Seq<u64> {
+    let s = gb_spec(s, ix[0], ix[4], ix[8], ix[12]);
+    let s = gb_spec(s, ix[1], ix[5], ix[9], ix[13]);
+    let s = gb_spec(s, ix[2], ix[6], ix[10], ix[14]);
+    let s = gb_spec(s, ix[3], ix[7], ix[11], ix[15]);
+    let s = gb_spec(s, ix[0], ix[5], ix[10], ix[15]);
+    let s = gb_spec(s, ix[1], ix[6], ix[11], ix[12]);
+    let s = gb_spec(s, ix[2], ix[7], ix[8], ix[13]);
+    let s = gb_spec(s, ix[3], ix[4], ix[9], ix[14]);
+    s
+}
+
+/// word positions of row i of the 8x8 matrix of 16-byte registers (registers 8i .. 8i+7 = words 16i .. 16i+15)
+pub open spec fn row_ix(i: int) -> Seq<int> {
+    Seq::new(16, |k: int| 16 * i + k)
+}
+
+/// word positions of column i (registers i, i+8, .., i+56 = words 2i, 2i+1, 2i+16, 2i+17, ..)
+pub open spec fn col_ix(i: int) -> Seq<int> {
+    Seq::new(16, |k: int| 2 * i + 16 * (k / 2) + k % 2)
+}
+
+pub open spec fn rows_spec(s: Seq<u64>, n: nat) -> Seq<u64>
+    decreases n,
+{
+    if n == 0 { s } else { p_at(rows_spec(s, (n - 1) as nat), row_ix(n - 1)) }
+}
+
+pub open spec fn cols_spec(s: Seq<u64>, n: nat) -> Seq<u64>
+    decreases n,
+{
+    if n == 0 { s } else { p_at(cols_spec(s, (n - 1) as nat), col_ix(n - 1)) }
+}
+
+pub open spec fn xor_seq(a: Seq<u64>, b: Seq<u64>) -> Seq<u64> {
+    Seq::new(a.len(), |i: int| a[i] ^ b[i])
+}
+
+/// RFC 9106 section 3.5: compression function G(X, Y) = Z xor R, R = X xor Y, Z = columns(rows(R))
+pub open spec fn g_spec(x: Seq<u64>, y: Seq<u64>) -> Seq<u64> {
+    let r = xor_seq(x, y);
+    xor_seq(cols_spec(rows_spec(r, 8), 8), r)
+}
+
+pub proof fn lemma_fblamka(x: u64, y: u64)
+    ensures
+        (x & 0xFFFFFFFFu64) * (y & 0xFFFFFFFFu64) <= u64::MAX,
+        x.wrapping_add(y).wrapping_add(2u64.wrapping_mul(((x & 0xFFFFFFFFu64) * (y & 0xFFFFFFFFu64)) as u64)) == fblamka_spec(x, y),
+{
+    let xl = x & 0xFFFFFFFFu64;
+    let yl = y & 0xFFFFFFFFu64;
+    assert(xl == x % 0x1_0000_0000 && xl <= 0xFFFF_FFFF) by (bit_vector) requires xl == x & 0xFFFFFFFFu64;
+    assert(yl == y % 0x1_0000_0000 && yl <= 0xFFFF_FFFF) by (bit_vector) requires yl == y & 0xFFFFFFFFu64;
+    assert(xl * yl <= 0xFFFF_FFFF * 0xFFFF_FFFF) by (nonlinear_arith) requires 0 <= xl <= 0xFFFF_FFFF, 0 <= yl <= 0xFFFF_FFFF;
+    let xy = (xl * yl) as u64;
+    let m = 0x1_0000_0000_0000_0000int;
+    let t = 2u64.wrapping_mul(xy);
+    assert(t as int == (2 * xy) % m);
+    let s = x.wrapping_add(y);
+    assert(s as int == (x + y) % m);
+    let r = s.wrapping_add(t);
+    assert(r as int == (s + t) % m);
+    vstd::arithmetic::div_mod::lemma_add_mod_noop((x + y) as int, (2 * xy) as int, m);
 }
 
 } // verus!
